@@ -143,6 +143,8 @@ def run_family(R, pid, modes, n_quick, n_thorough):
     first = True
     for mode in modes:
         per = max(1, n // len(modes))
+        if mode == "dnl":
+            per = max(1, per // 6)       # long histories (110-270 Interests each)
         tr, out = run_harness(R, h, per, R.seed * 1000 + len(results), mode, mode, corpus=corpus_dir if first else None)
         first = False
         if tr is None:
@@ -200,3 +202,37 @@ def run_family(R, pid, modes, n_quick, n_thorough):
             samples.append("%s: %s" % (mode, " ; ".join(cs[-1]["gen"][:8])))
     R.add_cases(totals["cases"], len(totals["nontrivial"]), samples)
     return results
+
+
+def replay(R, pid, path):
+    """bin/check Cxx --replay <file>: rebuild harness and runner from the current tree and re-run exactly the recorded ops."""
+    import json
+    rj = json.load(open(path))
+    ops = rj.get("ops") or (rj.get("first_divergence") or {}).get("ops")
+    if not ops:
+        print("replay file has no operation list (kind=%s): %s" % (rj.get("kind"), json.dumps(rj)[:1500]))
+        return 2
+    h, exe = build(R)
+    if h is None:
+        return R.finish()
+    p = os.path.join(R.work, "replay.ops")
+    write_ops(p, ops)
+    tr, out = run_harness(R, h, 0, 1, "all", "replay", ops_file=p)
+    if tr is None:
+        print("harness aborted:\n" + out[-3000:])
+        return 1
+    rc, o = run_runner(exe, tr)
+    print("operations:")
+    for l in ops:
+        print("   ", l)
+    bad = [l for l in o.split("\n") if l.startswith(("ORACLE " + pid, "DIVERGE"))]
+    seen = set()
+    for l in bad:
+        k = " ".join(l.split(" ")[:5])
+        if k in seen:
+            continue
+        seen.add(k)
+        print(l[:600])
+    print("trace: %s" % tr)
+    print("REPLAY %s: %s" % (pid, "property violated / model diverges" if bad else "no violation on the current tree"))
+    return 1 if bad else 0
